@@ -174,5 +174,5 @@ CLAIMED = {
 
 # designed (DESIGN.md §4) but the units are not built: listed under not_applicable with that reason
 NOT_BUILT = {
-    "C06": "parser acceptance is out of reach (recursive winnow grammar does not finish at N<=4 under CBMC, Verus cannot process it); the formatting/length/equality units designed in DESIGN.md §4 are not built; not claimed",
+    "C06": "parser acceptance (the main clause) is out of reach: the recursive winnow grammar does not finish at N<=4 under CBMC and Verus cannot process the combinator closures; the formatting / length / equality units designed in DESIGN.md §4 were not built, and units that walk static Signature trees through iterator adapters did not finish when tried for C05 (alignment_gvariant); not claimed",
 }
